@@ -142,17 +142,17 @@ var errConnLost = errors.New("simulated connection loss")
 type taskKey struct{}
 
 type Sim struct {
-	mu      sync.Mutex
-	parked  map[string]chan struct{}
-	on      bool // cooperative scheduling on (concurrent profiles)
-	tick    time.Duration
-	nticks  atomic.Int64
-	spun    atomic.Bool
+	mu               sync.Mutex
+	parked           map[string]chan struct{}
+	on               bool // cooperative scheduling on (concurrent profiles)
+	tick             time.Duration
+	nticks           atomic.Int64
+	spun             atomic.Bool
 	total, maxWindow atomic.Int64
 	// spinAfter: driver events per counting window before the tick escalates (0: default)
 	spinAfter int64
-	curTick atomic.Int64
-	sleepin atomic.Int32
+	curTick   atomic.Int64
+	sleepin   atomic.Int32
 
 	// fault plan: fires at the k-th driver event counted since arm (1-based)
 	evt                int
